@@ -146,13 +146,18 @@ func StarPoly(r *Rng, cx, cy int64, rmin, rmax float64, n int, ccw bool) Path {
 // alt is true, else every ring has random orientation. Returned rings are in
 // outer-to-inner order per cluster; depth[i] is the nesting depth of ring i.
 func Nested(r *Rng, clusters int, maxDepth int, R float64, alt bool, flip bool) (ps Paths, depth []int) {
+	return NestedMin(r, clusters, maxDepth, R, alt, flip, 12)
+}
+
+// NestedMin is Nested with an explicit smallest ring radius.
+func NestedMin(r *Rng, clusters int, maxDepth int, R float64, alt bool, flip bool, minRad float64) (ps Paths, depth []int) {
 	for c := 0; c < clusters; c++ {
 		cx := int64(c) * int64(2.5*R)
 		cy := int64(r.Range(-1, 1)) * int64(R/3)
 		d := 1 + r.Intn(maxDepth)
 		rad := R
 		for k := 0; k < d; k++ {
-			if rad < 12 {
+			if rad < minRad {
 				break
 			}
 			ccw := true
